@@ -320,6 +320,98 @@ theorem encAll_length_ge (cfg : Cfg) (crc : Bytes → Nat) (k : Kind) :
     simp only [encAll, encRaw, List.length_append, List.length_cons]
     omega
 
+/-- `encAll` uses `rnd i` only for `i` below the number of payloads. -/
+theorem encAll_rnd_congr (cfg : Cfg) (crc : Bytes → Nat) (k : Kind) : ∀ (ps : List Bytes) (seq : Int) (r1 r2 : Nat → Bytes),
+    (∀ i, i < ps.length → r1 i = r2 i) → encAll cfg crc k seq r1 ps = encAll cfg crc k seq r2 ps := by
+  intro ps
+  induction ps with
+  | nil => intro _ _ _ _; rfl
+  | cons p ps ih =>
+    intro seq r1 r2 h
+    simp only [encAll]
+    rw [h 0 (by simp), ih (seq + 1) (fun i => r1 (i + 1)) (fun i => r2 (i + 1))
+      (fun i hi => h (i + 1) (by simp only [List.length_cons]; omega))]
+
+/-! ### Writer state: a rejected write changes nothing -/
+
+theorem enc_of_accepts (cfg : Cfg) (crc : Bytes → Nat) (k : Kind) (seq : Int) (rnd p : Bytes)
+    (h : accepts cfg k p = true) : enc cfg crc k seq rnd p = .ok (encRaw cfg crc k seq rnd p) := by
+  unfold accepts at h
+  unfold enc
+  cases k <;> simp_all
+
+theorem enc_of_not_accepts (cfg : Cfg) (crc : Bytes → Nat) (k : Kind) (seq : Int) (rnd p : Bytes)
+    (h : accepts cfg k p = false) : ∃ e, enc cfg crc k seq rnd p = .error e := by
+  unfold accepts at h
+  unfold enc
+  by_cases h1 : cfg.outRejects p.length = true
+  · exact ⟨.badLen p.length, by simp [h1]⟩
+  · have h1' : cfg.outRejects p.length = false := by simpa using h1
+    simp only [h1', Bool.not_false, Bool.true_and, Bool.not_eq_eq_eq_not, Bool.not_false, Bool.and_eq_true,
+      bne_iff_ne, ne_eq, decide_eq_true_eq] at h
+    refine ⟨.notAligned, ?_⟩
+    simp only [h1', Bool.false_eq_true, if_false]
+    have : k ≠ Kind.full ∧ cfg.misaligned p.length = true := by
+      cases k <;> simp_all
+    simp [this]
+
+theorem writeOp_rejected (crc : Bytes → Nat) (k : Kind) (s : Int) (rnd p : Bytes)
+    (h : accepts Cfg.spec k p = false) :
+    (writeOp Cfg.spec crc k s rnd p).2 = s ∧ sessionWire [(writeOp Cfg.spec crc k s rnd p).1] = [] := by
+  obtain ⟨e, he⟩ := enc_of_not_accepts Cfg.spec crc k s rnd p h
+  unfold writeOp
+  rw [he]
+  simp only [spec_fullSeqAfterCheck, if_true, sessionWire, and_self]
+
+theorem writeOp_accepted (cfg : Cfg) (crc : Bytes → Nat) (k : Kind) (s : Int) (rnd p : Bytes)
+    (h : accepts cfg k p = true) :
+    writeOp cfg crc k s rnd p = (.ok (encRaw cfg crc k s rnd p), s + 1) := by
+  simp [writeOp, enc_of_accepts cfg crc k s rnd p h]
+
+/-- The wire of a session is the wire of its accepted writes alone, numbered consecutively: the
+rejected ones leave no trace, neither on the wire nor in the counter. -/
+theorem session_filter (crc : Bytes → Nat) (k : Kind) : ∀ (ops : List (Bytes × Bytes)) (s : Int),
+    sessionWire (writeSession Cfg.spec crc k s ops).1
+        = sessionWire (writeSession Cfg.spec crc k s (ops.filter fun o => accepts Cfg.spec k o.2)).1
+      ∧ (writeSession Cfg.spec crc k s ops).2
+        = (writeSession Cfg.spec crc k s (ops.filter fun o => accepts Cfg.spec k o.2)).2 := by
+  intro ops
+  induction ops with
+  | nil => intro s; exact ⟨rfl, rfl⟩
+  | cons o ops ih =>
+    intro s
+    obtain ⟨rnd, p⟩ := o
+    by_cases ha : accepts Cfg.spec k p = true
+    · have hw := writeOp_accepted Cfg.spec crc k s rnd p ha
+      simp only [List.filter_cons, ha, if_true, writeSession, hw, sessionWire]
+      exact ⟨by rw [(ih (s + 1)).1], (ih (s + 1)).2⟩
+    · have ha' : accepts Cfg.spec k p = false := by simpa using ha
+      obtain ⟨e, he⟩ := enc_of_not_accepts Cfg.spec crc k s rnd p ha'
+      have hw : writeOp Cfg.spec crc k s rnd p = (.error e, s) := by
+        unfold writeOp; rw [he]; simp only [spec_fullSeqAfterCheck, if_true]
+      simp only [List.filter_cons, ha', Bool.false_eq_true, if_false, writeSession, hw, sessionWire]
+      exact ih s
+
+/-- A session of accepted writes only: its wire is `encAll` of the payloads. -/
+theorem session_all_accepted (crc : Bytes → Nat) (k : Kind) : ∀ (ops : List (Bytes × Bytes)) (s : Int),
+    (∀ o ∈ ops, accepts Cfg.spec k o.2 = true) →
+    sessionWire (writeSession Cfg.spec crc k s ops).1
+        = encAll Cfg.spec crc k s (fun i => (ops.getD i ([], [])).1) (ops.map (·.2))
+      ∧ (writeSession Cfg.spec crc k s ops).2 = s + ops.length := by
+  intro ops
+  induction ops with
+  | nil => intro s _; simp [writeSession, sessionWire, encAll]
+  | cons o ops ih =>
+    intro s h
+    obtain ⟨rnd, p⟩ := o
+    have ha := h (rnd, p) (List.mem_cons_self ..)
+    have hw := writeOp_accepted Cfg.spec crc k s rnd p ha
+    have := ih (s + 1) (fun o ho => h o (List.mem_cons_of_mem _ ho))
+    simp only [writeSession, hw, sessionWire, encAll, List.map_cons, List.length_cons, this.1, this.2]
+    constructor
+    · simp
+    · omega
+
 /-! ### Headers and detection -/
 
 theorem detect_header (k : Kind) (hk : k ≠ .full) (s : Bytes) :
